@@ -241,6 +241,9 @@ def run_check(prop, tier, seed, replay=None):
     cov_extra = {}
     broke = []          # names of theorems / streams that no longer check
 
+    for old in glob.glob(os.path.join(VERIF, "replays", pid + "-*")):
+        try: os.remove(old)
+        except OSError: pass
     # 1. regenerate
     if hasattr(prop, "regenerate"):
         try:
@@ -408,23 +411,35 @@ def search(prop, runner, s, d, orc, cr, lr, tier):
     def impl_out(ls):
         r = runner.run_batch([Scenario("x", ls)], "impl", timeout=60)[0]
         return r
+    def kind(msg):
+        return str(msg).split(":")[0][:40]
+    want_kind = kind(orc) if orc is not None else None
     def oracle_fails(ls):
         o, crash = impl_out(ls)
         if crash:
             return getattr(prop, "CRASH_IS_VIOLATION", True)
-        return has_oracle and prop.oracle(Scenario("x", ls), o) is not None
+        if not has_oracle:
+            return False
+        m = prop.oracle(Scenario("x", ls, s.meta), o)
+        return m is not None and (want_kind is None or kind(m) == want_kind)
+    want_op = s.lines[d[1]].split()[0] if (d and 0 <= d[1] < len(s.lines)) else None
     def differ(ls):
         c = runner.run_batch([Scenario("x", ls)], "impl", timeout=60)[0]
         pre = getattr(prop, "two_pass", None)
         ls2 = pre(Scenario("x", ls), c[0]) if pre else ls
         l = runner.run_batch([Scenario("x", ls2)], "lean", timeout=60)[0]
-        return compare(Scenario("x", ls), c, l, prop) is not None
+        dd = compare(Scenario("x", ls), c, l, prop)
+        if dd is None:
+            return False
+        if want_op is None or not (0 <= dd[1] < len(ls)):
+            return True
+        return ls[dd[1]].split()[0] == want_op and dd[0] == d[0]
     budget = 60 if tier == "quick" else 300
     # direct: property oracle (or crash) on this scenario
     if orc is not None or (cr[1] is not None and getattr(prop, "CRASH_IS_VIOLATION", True)):
         small = ddmin(lines, oracle_fails, budget)
         o, crash = impl_out(small)
-        why = prop.oracle(Scenario("x", small), o) if (has_oracle and not crash) else None
+        why = prop.oracle(Scenario("x", small, s.meta), o) if (has_oracle and not crash) else None
         return True, small, why, o[-3:] if o else None, crash or ""
     # correspondence differs but the oracle is happy on this scenario: shrink the difference,
     # then try the property's own neighbourhood generators on the implementation
